@@ -1,0 +1,98 @@
+//go:build verif
+
+package bcl
+
+// Verification hooks, compiled in only with the 'verif' build tag.
+// They observe (and may delay) but never change what the library computes.
+
+import "sync/atomic"
+
+// Ids of the points reported via the hook set with VerifSetPointHook.
+const (
+	VerifPtReaderAfterRead   = 1
+	VerifPtReaderBeforeSend  = 2
+	VerifPtReaderBeforeRerr  = 3
+	VerifPtReaderBeforeClose = 4
+	VerifPtParserReturned    = 5
+	VerifPtParserBeforeDone  = 6
+	VerifPtParserBeforePerr  = 7
+	VerifPtLexBeforeRecv     = 10
+	VerifPtLexAfterLineUpd   = 11
+	VerifPtLexBeforeEmit     = 12
+	VerifPtLexBeforeClose    = 13
+	VerifPtParseAfterToken   = 20
+	VerifPtParseDiagnostic   = 21
+)
+
+var verifPointHook atomic.Pointer[func(id int)]
+
+// VerifSetPointHook sets (or with nil, removes) the function called
+// at the instrumented points of the reader/lexer/parser pipeline.
+// The function is called from the library's goroutines.
+func VerifSetPointHook(f func(id int)) {
+	if f == nil {
+		verifPointHook.Store(nil)
+		return
+	}
+	verifPointHook.Store(&f)
+}
+
+func verifPoint(id int) {
+	if f := verifPointHook.Load(); f != nil {
+		(*f)(id)
+	}
+}
+
+// VerifVMState is what the VM hook sees before each instruction is dispatched.
+type VerifVMState struct {
+	PC, Tos, BlockTos int
+	Op                byte
+	CodeLen           int
+}
+
+var verifVMHook atomic.Pointer[func(VerifVMState)]
+
+// VerifSetVMHook sets (or with nil, removes) the function called
+// at the top of the VM dispatch loop.
+func VerifSetVMHook(f func(VerifVMState)) {
+	if f == nil {
+		verifVMHook.Store(nil)
+		return
+	}
+	verifVMHook.Store(&f)
+}
+
+func verifVMStep(vm *vm) {
+	if f := verifVMHook.Load(); f != nil {
+		st := VerifVMState{PC: vm.pc, Tos: vm.tos, BlockTos: vm.blockTos, CodeLen: len(vm.prog.code)}
+		if vm.pc >= 0 && vm.pc < len(vm.prog.code) {
+			st.Op = vm.prog.code[vm.pc]
+		}
+		(*f)(st)
+	}
+}
+
+// VerifParts are the in-memory parts of a Prog.
+type VerifParts struct {
+	Name      string
+	Code      []byte
+	Constants []any
+	Positions []int
+	LineFeeds []int
+}
+
+// VerifProgParts gives a copy of the Prog's parts.
+func VerifProgParts(p *Prog) VerifParts {
+	vp := VerifParts{
+		Name:      p.name,
+		Code:      append([]byte(nil), p.code...),
+		Positions: append([]int(nil), p.positions...),
+	}
+	for _, c := range p.constants {
+		vp.Constants = append(vp.Constants, c)
+	}
+	if p.linePos != nil {
+		vp.LineFeeds = append([]int(nil), p.linePos.lfs...)
+	}
+	return vp
+}
